@@ -120,12 +120,38 @@ def arm_env(arm):
     return env
 
 
-def result_lambdas(arm):
-    """Closures that are the arm's result: returned lambdas / nested defs, or pushed on the result stack."""
+def result_lambdas(arm, prog=None, kind=None, subject=None):
+    """Closures that are the arm's result: returned lambdas / nested defs, or pushed on the result stack.  For an arm
+    shared by several kinds, only what is reachable when the node IS of ``kind`` (inner isinstance tests on the
+    dispatch subject are evaluated)."""
     out = []
     defs = {n.name: n for st in arm.body for n in ast.walk(st) if isinstance(n, ast.FunctionDef)}
-    for st in arm.body:
-        for n in ast.walk(st):
+    body = arm.body
+    if prog is not None and kind is not None and len(getattr(arm, "kinds", [])) > 1:
+        from ..scenario import Explorer
+
+        reached = []
+
+        def atom_truth(t, state):
+            if isinstance(t, ast.Call) and dotted(t.func) == "isinstance" and len(t.args) == 2 and src(t.args[0]) == subject:
+                ks = t.args[1].elts if isinstance(t.args[1], ast.Tuple) else [t.args[1]]
+                names = [(dotted(k_) or "").split(".")[-1] for k_ in ks]
+                if all(nm in prog.classes for nm in names):
+                    return any(nm == kind or prog.is_subclass(kind, nm) for nm in names)
+            return None
+
+        def on_stmt(st, state):
+            reached.append(st)
+
+        try:
+            for state, term in Explorer(atom_truth, on_stmt).explore(arm.body, {}):
+                pass
+            body = reached
+        except Exception:
+            body = arm.body
+    for st in body:
+        nodes = [st] if isinstance(st, ast.Return) else list(ast.walk(st)) if not isinstance(st, (ast.If, ast.For, ast.While, ast.Try, ast.With)) or body is arm.body else []
+        for n in nodes:
             if isinstance(n, ast.Return) and isinstance(n.value, ast.Lambda):
                 out.append(n.value)
             if isinstance(n, ast.Return) and isinstance(n.value, ast.Name) and n.value.id in defs:
@@ -152,7 +178,7 @@ def check(prog, rep):
                    f"{label} evaluator builder has no arm for {k}: compile_expression raises for an expression kind the API can construct"),
                    loc=f"{fi.module.rel}:{a.lineno if a is not None else fi.node.lineno}", detail=k)
         for a, b in dead_arms(prog, d):
-            rep.ob("R01.8", fi.name, False, f"arm for {a.kinds} at line {a.lineno} is shadowed by the earlier arm for {b.kinds} (line {b.lineno}) and can never run", loc=f"{fi.module.rel}:{a.lineno}", detail=f"dead:{'|'.join(a.kinds)}")
+            rep.ob("R01.8", fi.name, False, f"arm for {a.kinds} at line {a.lineno} is shadowed by the earlier arm for {b.kinds} (line {b.lineno}) and can never run", loc=f"{fi.module.rel}:{a.lineno}", detail=f"dead:{'|'.join(a.kinds)}", robust=True)
         rep.ob("R01.8", fi.name, not dead_arms(prog, d), f"{len(d.arms)} arms, none shadowed by an earlier superclass arm", loc=fi.loc, detail="order")
         # Parameter must be dispatched before any arm that would accept it as something else
         pa = d.handler(prog, "Parameter")
@@ -229,7 +255,7 @@ def check(prog, rep):
                 if via == "?":
                     rep.undecided(f"{fi.name}: the BinaryOp arm does not dispatch on the operator in a recognised way")
                     break
-                rep.ob("R01.3", fi.name, False, f"no arm for binary operator {op!r}", loc=f"{fi.module.rel}:{ba.lineno}", detail=f"binop:{op}")
+                rep.ob("R01.3", fi.name, False, f"no arm for binary operator {op!r}", loc=f"{fi.module.rel}:{ba.lineno}", detail=f"binop:{op}", robust=bool(oph))
                 continue
             closures = _arm_closures(a.body)
             if len(closures) != 1:
@@ -251,10 +277,14 @@ def check(prog, rep):
                 return roles.get(nm)
 
             ok = isinstance(body, ast.BinOp) and isinstance(body.op, PY_OP[op]) and role(body.left) == "left" and role(body.right) == "right"
+            if not ok and not (isinstance(body, ast.BinOp) and role(body.left) in ("left", "right") and role(body.right) in ("left", "right")):
+                # not `f(x) <op> g(x)` over the two operand evaluators (a helper call, operator.add, extra wrapping): not read
+                rep.undecided(f"{fi.name}: {op!r}: closure body `{src(body)[:50]}` is not `<operand evaluator>(x) <op> <operand evaluator>(x)`")
+                continue
             rep.ob("R01.3", fi.name, ok,
                    f"{op!r}: closure computes left(x) {op} right(x)" if ok else
                    f"{op!r}: closure computes `{src(body)}` with operands ({role(getattr(body, 'left', None))}, {role(getattr(body, 'right', None))}); expected left(x) {op} right(x)",
-                   loc=f"{fi.module.rel}:{lam.lineno}", detail=f"binop:{op}")
+                   loc=f"{fi.module.rel}:{lam.lineno}", detail=f"binop:{op}", robust=True)
         # unary arm
         uenv = arm_env(ua)
         lams = [n for st in ua.body for n in ast.walk(st) if isinstance(n, ast.Lambda)]
@@ -305,10 +335,13 @@ def check(prog, rep):
                     cands = [v for v in assigns.get(on, []) if isinstance(v, ast.AST) and v.lineno <= lam.lineno]
                     origin = cands[-1] if cands else None
                 ok = origin is not None and _from_map(origin, mapname)
+                if not ok and (origin is None or any(isinstance(c_, ast.Call) and isinstance(c_.func, ast.Name) and c_.func.id not in ("len", "range", "list", "enumerate", "tuple", "sorted", "int") for c_ in ast.walk(origin))):
+                    rep.undecided(f"{fi.name}: x[{src(idx)}] at line {lam.lineno}: where the index comes from is not readable ({src(origin)[:40] if origin is not None else 'no local definition'})")
+                    continue
                 rep.ob("R01.5", fi.name, ok,
                        f"x[{src(idx)}] uses a position looked up in {mapname} by variable name" if ok else
                        f"x[{src(idx)}] at line {lam.lineno} is not indexed through {mapname}[<variable>.name] (origin: {src(origin)[:50] if origin is not None else 'unknown'}): it would ignore the caller's variable order",
-                       loc=f"{fi.module.rel}:{lam.lineno}", detail=f"subscript@{_arm_kind(lam, fi)}")
+                       loc=f"{fi.module.rel}:{lam.lineno}", detail=f"subscript@{_arm_kind(lam, fi)}", robust=True)
     # helpers of the compiler module that build gather closures over the point x for the builders
     for h in prog.functions.values():
         if h.module is not rec.module or h in builders or h.parent is not None or h.cls is not None:
@@ -357,7 +390,10 @@ def check(prog, rep):
         reads = [n for st in pa.body for n in ast.walk(st) if isinstance(n, ast.Attribute) and n.attr in ("value", "_value")]
         inside = [n for n in reads if any(isinstance(p, ast.Lambda) and any(n is y for y in ast.walk(p.body)) for st in pa.body for p in ast.walk(st))]
         ok = bool(reads) and len(inside) == len(reads)
-        rep.ob("R01.6", fi.name, ok, "the parameter's value is read inside the closure body (at call time)" if ok else "the Parameter arm reads .value while building the closure: later Parameter.set() calls are ignored by the compiled callable", loc=f"{fi.module.rel}:{pa.lineno}", detail="call-time-read")
+        if not reads:
+            rep.undecided(f"{fi.name}: the Parameter arm reads no .value itself (built by a helper?): when the value is read is not decided here")
+            continue
+        rep.ob("R01.6", fi.name, ok, "the parameter's value is read inside the closure body (at call time)" if ok else "the Parameter arm reads .value while building the closure: later Parameter.set() calls are ignored by the compiled callable", loc=f"{fi.module.rel}:{pa.lineno}", detail="call-time-read", robust=True)
 
     # ------------------------------------------------------------------ R01.7 evaluate <-> closure tags
     for k in kinds:
@@ -373,7 +409,7 @@ def check(prog, rep):
             if a is None or k not in a.kinds:
                 continue
             env = arm_env(a)
-            lams = result_lambdas(a)
+            lams = result_lambdas(a, prog, k, d.subject)
             if not lams:
                 rep.undecided(f"{fi.name}: arm for {k} builds no result closure in the recognised form")
                 continue
@@ -387,7 +423,7 @@ def check(prog, rep):
                 rep.ob("R01.7", f"{fi.name}[{k}]", ct == want,
                        f"closure and {k}.evaluate both denote {_show(want)}{gnote}" if ct == want else
                        f"the compiled closure denotes {_show(ct)} but {k}.evaluate denotes {_show(et)}{gnote}",
-                       loc=f"{fi.module.rel}:{lam.lineno}", detail="evaluate<->closure" + (":guarded" if gnote else ""))
+                       loc=f"{fi.module.rel}:{lam.lineno}", detail="evaluate<->closure" + (":guarded" if gnote else ""), robust=True)   # both sides come out of the finite idiom table; unknown idioms raised above
             # element evaluators appended in loops must evaluate the loop element
             for st in a.body:
                 for loop in [n for n in ast.walk(st) if isinstance(n, ast.For)]:
